@@ -39,6 +39,7 @@ class Ledger:
         self.conns = []  # FakeConn
         self.clock = 1
 
+        self.rollback_guard = None  # oracle hook: called with the connection being rolled back
         self.banned = {}  # conn cid -> why it must never be handed out again
         self.inv_at = 0  # oracle's own copy of "time of the last effective pool invalidation"
 
@@ -106,6 +107,8 @@ def build(cfg, plan, pool_cls_name="QueuePool"):
                 raise Error("close failed")
 
         def rollback(self):
+            if led.rollback_guard is not None:
+                led.rollback_guard(self)
             if led.fault(2):
                 raise Error("rollback failed")
 
@@ -223,17 +226,65 @@ def run_real(cfg, plan, ops, pool_cls_name="QueuePool"):
             def rid(rec):
                 return rec_ids.get(id(rec), 999)
 
+            kept = []  # exceptions of failed checkouts the caller keeps alive (op "cok")
+            releasing = [None]
+
+            def guard(conn):
+                for g in fairies:
+                    if g is not None and g is not releasing[0] and g.dbapi_connection is conn:
+                        failures.append(("rollback-on-held-connection", "rollback() called on connection %d while a live checkout holds it" % conn.cid))
+
+            led.rollback_guard = guard
+
+            def drop_exc(j):
+                # `del e; gc.collect()` of the caller: the traceback (and through its frames
+                # the dead _ConnectionFairy) is freed.  The traceback <-> harness-frame cycle is
+                # cut by hand instead of a full gc.collect(), which would dominate the run time
+                e, kept[j] = kept[j], None
+                e.__traceback__ = None
+                e.__context__ = None
+                e.__cause__ = None
+                del e
+
+            def holders_check(after):
+                if not is_q:
+                    return
+                live = [g for g in fairies if g is not None]
+                conns = [id(g.dbapi_connection) for g in live if g.dbapi_connection is not None]
+                if len(conns) != len(set(conns)):
+                    failures.append(("two-holders", "after %s: one DBAPI connection is held by two live checkouts" % (after,)))
+                if pool.checkedout() != len(live):
+                    failures.append(("checkedout-mismatch", "after %s: checkedout()=%d but %d live checkouts" % (after, pool.checkedout(), len(live))))
+                held_recs = {id(g._connection_record) for g in live if g._connection_record is not None}
+                if any(id(r) in held_recs for r in pool._pool.queue):
+                    failures.append(("held-and-idle", "after %s: a checked-out record is idle in the pool" % (after,)))
+
             for op in ops:
                 kind = op[0]
-                if kind == "co":
+                if kind == "gcx":
+                    # the caller finally drops the exception of a failed checkout: whatever it
+                    # kept alive (the dead _ConnectionFairy) is collected now
+                    if op[1] < len(kept) and kept[op[1]] is not None:
+                        drop_exc(op[1])
+                    outs.append("done")
+                    holders_check(op)
+                    continue
+                if kind in ("co", "cok"):
+                    def keep(e):
+                        if kind == "cok":
+                            kept.append(e)
+
                     try:
                         f = pool.connect()
-                    except exc.TimeoutError:
+                    except exc.TimeoutError as e:
                         outs.append("timeout")
-                    except exc.InvalidRequestError:
+                        keep(e)
+                    except exc.InvalidRequestError as e:
                         outs.append("exhausted")
+                        keep(e)
                     except led.Error as e:
                         outs.append("connect-error" if "connect failed" in str(e) else "checkout-error")
+                        keep(e)
                     except Exception as e:  # noqa
                         outs.append("unexpected:" + type(e).__name__)
                         failures.append(("unexpected-exception", "connect() raised %s: %s" % (type(e).__name__, e)))
@@ -265,6 +316,7 @@ def run_real(cfg, plan, ops, pool_cls_name="QueuePool"):
                         outs.append("skip")
                         continue
                     conn = f.dbapi_connection
+                    releasing[0] = f
                     if kind == "ci":
                         f.close()
                     elif kind == "drop":
@@ -285,7 +337,9 @@ def run_real(cfg, plan, ops, pool_cls_name="QueuePool"):
                     if kind != "soft":
                         fairies[h] = None
                     del f
+                    releasing[0] = None
                     outs.append("done")
+                holders_check(op)
             # ---------------- final observation (before releasing the remaining holders)
             if is_q:
                 q = list(pool._pool.queue)
@@ -297,6 +351,10 @@ def run_real(cfg, plan, ops, pool_cls_name="QueuePool"):
                 canon = None
             # ---------------- direct oracle: release everything, then nothing may leak
             led.plan = []  # no more faults while releasing
+            led.rollback_guard = None
+            for j in range(len(kept)):
+                if kept[j] is not None:
+                    drop_exc(j)
             for h in range(len(fairies)):
                 if fairies[h] is not None:
                     fairies[h].close()
@@ -337,12 +395,18 @@ def gen_case(rng, small=False):
         "has_event": rng.random() < 0.45,
     }
     n = rng.randint(2, 6) if small else rng.randint(3, 12)
-    ops, nco = [], 0
+    ops, nco, nkept = [], 0, 0
     for _ in range(n):
         x = rng.random()
         if nco == 0 or x < 0.45:
-            ops.append(["co"])
+            if rng.random() < 0.3:
+                ops.append(["cok"])
+                nkept += 1
+            else:
+                ops.append(["co"])
             nco += 1
+        elif x < 0.475 and nkept:
+            ops.append(["gcx", rng.randrange(nkept)])
         elif x < 0.5:
             ops.append(["wait", rng.choice([1, 2, 5, 20])])
         else:
@@ -357,10 +421,24 @@ def fmt_ops(ops):
     return ",".join(":".join(str(x) for x in op) for op in ops) or "-"
 
 
+def fmt_model_ops(ops):
+    """`cok` is `co` whose exception the caller keeps; `gcx` (dropping that exception) is a
+    no-op for the pool: the dead fairy's weakref callback finds `fairy_ref is not ref`"""
+    out = []
+    for op in ops:
+        if op[0] == "cok":
+            out.append("co")
+        elif op[0] == "gcx":
+            out.append("wait:0")
+        else:
+            out.append(":".join(str(x) for x in op))
+    return ",".join(out) or "-"
+
+
 def model_line(cfg, plan, ops):
     return "poolfault run %d %d %d %d %d %d %d %s %s" % (
         cfg["size"], cfg["max_overflow"], int(cfg["lifo"]), cfg["recycle"], int(cfg["pre_ping"]), cfg["reset"],
-        int(cfg["has_event"]), ",".join(map(str, plan)) or "-", fmt_ops(ops))
+        int(cfg["has_event"]), ",".join(map(str, plan)) or "-", fmt_model_ops(ops))
 
 
 def classify(key, cfg, plan, ops):
@@ -389,10 +467,10 @@ def exhaustive_cases(max_ops, plan_len):
     """all op sequences of length <= max_ops over {co, ci, inv, soft, pinv, drop} on a
     tight pool x every position of a single fault x pre_ping/event settings"""
     base = {"size": 1, "max_overflow": 1, "lifo": False, "recycle": -1, "reset": 0}
-    alphabet = [["co"], ["ci", 0], ["ci", 1], ["inv", 0], ["soft", 0], ["pinv", 0], ["drop", 0], ["drop", 1]]
+    alphabet = [["co"], ["cok"], ["gcx", 0], ["ci", 0], ["ci", 1], ["inv", 0], ["soft", 0], ["pinv", 0], ["drop", 0], ["drop", 1]]
     for n in range(1, max_ops + 1):
         for seq in itertools.product(alphabet, repeat=n):
-            if seq[0] != ["co"]:
+            if seq[0] not in (["co"], ["cok"]):
                 continue
             for pp, ev in ((False, False), (True, False), (False, True), (True, True)):
                 cfg = dict(base, pre_ping=pp, has_event=ev)
